@@ -30,7 +30,7 @@ import rig
 from props import c02_gen
 
 ID = 'C02'
-EXTRACT = ['collector', 'frames']
+EXTRACT = ['collector', 'frames', 'collector_time']
 LEAN_TARGETS = ['DeepModel.Props.C02']
 AUDIT = 'DeepModel/Audit/C02.lean'
 DRIVER = 'DeepModel/Driver/C02.lean'
